@@ -31,9 +31,12 @@ PROP = dict(
           "backslashes: runs of one element, mostly-opening mixes, uniform mixes, text that looks like nested containers; documents of "
           "1..30 KB) each ending in nothing, 1..3 escaped backslashes or an escaped quote (enumerated: 5 endings of a first string x "
           "bulk strings of 300/1200/2500 elements of every theme and element, as list items and as key + value); each with a generated suffix (reader extent), trailing whitespace and "
-          "trailing garbage; plus documents with exactly one injected extension (trailing comma, hex integer, n/t/f, // comment); "
+          "trailing garbage; one document in four also followed by 1..3 complete // comment lines (ended by \\n, \\r or \\r\\n, whitespace between them): the string "
+          "entry points accept that with the document's value in default mode, reject it in strict mode, and reject in both modes any non-whitespace (bytes, a "
+          "numeral, a literal, a second document, a lone /) standing after the line break that ends the last comment (enumerated: 47 fixed documents x 4 comment "
+          "tails x 6 kinds of data); plus documents with exactly one injected extension (trailing comma, hex integer, n/t/f, // comment); "
           "non-trivial = nesting >= 2 and a fraction/exponent numeral or an escape (every extension case counts). (c) every proper prefix "
-          "and every single-byte delete/replace/insert over 28 structural bytes of 47 fixed documents and 21 fixed non-standard texts (complete) and of generated documents; "
+          "and every single-byte delete/replace/insert over 28 structural bytes of 47 fixed documents and 23 fixed non-standard texts (among them documents followed by complete // comment lines) (complete) and of generated documents; "
           "non-trivial = the base document is a container of >= 6 bytes. (d) streams: 2..24 texts (documents, proper prefixes, single-byte "
           "edits, unstructured bytes; a third of the streams built from documents nested up to 500 deep) parsed one after the other on one "
           "fresh thread, two thirds of the streams through the reader entry point only, the others with the string entry points mixed in; "
@@ -52,6 +55,9 @@ PROP = dict(
                  "a stream case carries its whole prelude and runs on a fresh thread, so that it replays on its own; texts of a stream that are not standard documents "
                  "are only checked for the exception type (their outcome is not compared with the outcome in isolation)",
                  "rejection = JSON::parse_error or std::out_of_range (both documented); which of the two is not asserted",
+                 "a // comment runs from // to the next line break (\\n or \\r, as inside a document) or to the end of the text; the one-text oracle (fuzz target, edit "
+                 "enumeration, streams) models the region after the value as whitespace and // comments in default mode: the string entry points must accept "
+                 "when nothing else follows and must reject when a byte that is neither whitespace nor the start of a // comment follows (a lone / is such a byte)",
                  "non-standard texts that are not one of the four documented extensions (e.g. '-', '007', '1.', \\x41, raw control bytes in strings) are only required to be handled without crash or foreign exception type"],
     min_evaluations_quick=100000,
     engine="libFuzzer + Hypothesis (Python json.loads) + rapidcheck + exhaustive enumerators",
